@@ -243,4 +243,58 @@ theorem checkC05_c37 (a : A) (all : List Ev) (senderOf : Nat → Nat)
   · exact ErrExt.refl _ _
   · exact errExt_chk _ _ _ _ _ (by simp)
 
+/-! ## C14: a logger is waited for (`checkLoggerWaited`) -/
+
+/-- frames that are not routed as data: nothing to check -/
+theorem checkLoggerWaited_skip (cfg : Cfg) (X : A) (rd : Read) (evs : List Ev)
+    (h : brokenRd cfg rd = true ∨ isControl cfg rd.h.mtype = true) : checkLoggerWaited cfg X rd evs = X := by
+  unfold checkLoggerWaited
+  cases X.get rd.uid with
+  | none => rfl
+  | some m =>
+    dsimp only
+    rw [if_pos]
+    unfold brokenRd at h
+    rcases h with h | h
+    · rw [h]; simp
+    · rw [h]; simp
+
+/-- `checkLoggerWaited` follows from the "every eligible subscriber gets exactly one copy" clause of C01: a logger that
+    subscribes to the type is eligible whether its connection is writable or not -/
+theorem checkLoggerWaited_of_c01 (cfg : Cfg) (X a0 : A) (rd : Read) (evs : List Ev)
+    (hm : X.mods = a0.mods) (hf : X.fail = a0.fail)
+    (c3 : rd.h.mtype ≠ cfg.allTypes → ∀ m ∈ dexpected cfg a0 rd.h, ((dmine rd.h.k evs).filter (·.1 == m.uid)).length = 1) :
+    checkLoggerWaited cfg X rd evs = X := by
+  unfold checkLoggerWaited
+  cases X.get rd.uid with
+  | none => rfl
+  | some m =>
+    dsimp only
+    split
+    · rfl
+    · rename_i hcond
+      simp only [Bool.or_eq_true, Bool.not_eq_true', not_or, Bool.not_eq_true, Bool.not_eq_false, beq_iff_eq] at hcond
+      obtain ⟨⟨⟨⟨_, _⟩, _⟩, hir⟩, hta⟩ := hcond
+      refine foldl_fix _ _ _ (fun l hl => chk_of _ _ _ _ ?_)
+      obtain ⟨hlm, hlp⟩ := List.mem_filter.mp hl
+      simp only [Bool.and_eq_true, Bool.not_eq_eq_eq_not, Bool.not_true] at hlp
+      obtain ⟨⟨⟨⟨hal, hlg⟩, hsub⟩, _⟩, hnf⟩ := hlp
+      have hexp : l ∈ dexpected cfg a0 rd.h := by
+        unfold dexpected inRangeH
+        rw [if_pos (by simpa using hir)]
+        refine List.mem_filter.mpr ⟨List.mem_filter.mpr ⟨by rw [← hm]; exact hlm, by simp [hal, hsub]⟩, ?_⟩
+        have : a0.failing l.uid = false := by unfold A.failing at hnf ⊢; rw [← hf]; exact hnf
+        simp [ready, destOK, hlg, this]
+      have h1 := c3 (by simpa using hta) l hexp
+      have hne : (dmine rd.h.k evs).filter (·.1 == l.uid) ≠ [] := by
+        intro h0; rw [h0] at h1; cases h1
+      obtain ⟨p, hp⟩ := List.exists_mem_of_ne_nil _ hne
+      obtain ⟨hp1, hp2⟩ := List.mem_filter.mp hp
+      rw [List.any_eq_true]
+      refine ⟨p, List.mem_filter.mpr ⟨?_, ?_⟩, hp2⟩
+      · unfold dmine dcopies at hp1
+        exact (List.mem_filter.mp (List.mem_filter.mp hp1).1).1
+      · unfold dmine at hp1
+        exact (List.mem_filter.mp hp1).2
+
 end Pyrtma.Mgr.Spec
